@@ -406,3 +406,14 @@ Proof.
   - apply compound_distance_symmetric.
     induction HF as [|sw subs' Hsw _ IH]; constructor; [exact (rv_so3_tree_sym acosF _ Hsw)|exact IH].
 Qed.
+
+(* non-vacuity of the sampling theorems: a nested box tree does return a sample from a u64 stream *)
+Example box_sample_nonvacuous :
+  box_tree (CS [(RV 1 [(zero, one)] one, one); (CS [(RV 1 [(zero, one)] one, one)], one)]) /\
+  exists x rest, sample (fun v => v) 10 (CS [(RV 1 [(zero, one)] one, one); (CS [(RV 1 [(zero, one)] one, one)], one)])
+                   [5%N; 123456789012345%N] = (Some (Ok x), rest).
+Proof.
+  split.
+  - repeat (constructor; cbn [fst]).
+  - eexists. eexists. vm_compute. reflexivity.
+Qed.
